@@ -10,5 +10,6 @@ PROPERTIES
   Step_C20_VolumesWindowMetaNoHistory
   Step_C20_LateralInArray
   Step_C20_AcctBalancePitNoEffective
+  Step_C20_AcctBalanceNoAsset
 POSTCONDITION Accepted
 CHECK_DEADLOCK FALSE
